@@ -49,6 +49,7 @@ type VerifRunLoopSnap struct {
 	PTONoAckDelay        int64 // rttStats.PTO(false)
 	AckAlarm             int64
 	LossTimeout          int64
+	NextRetire           int64 // connIDGenerator.NextRetireTime(): earliest pending retirement of a connection ID, 0 = none
 	// what the implementation's own helpers return on this state
 	IdleStart     int64
 	NextIdle      int64
@@ -85,6 +86,7 @@ func VerifRunLoopSnapshot(c *Conn) VerifRunLoopSnap {
 		PTONoAckDelay:        int64(c.rttStats.PTO(false)),
 		AckAlarm:             int64(c.receivedPacketHandler.GetAlarmTimeout()),
 		LossTimeout:          int64(c.sentPacketHandler.GetLossDetectionTimeout()),
+		NextRetire:           int64(c.connIDGenerator.NextRetireTime()),
 		IdleStart:            int64(c.idleTimeoutStartTime()),
 		NextIdle:             int64(c.nextIdleTimeoutTime()),
 		NextKeepAlive:        int64(c.nextKeepAliveTime()),
